@@ -64,6 +64,12 @@ CHECKS.update({
         text="MC_EncodedStream checks all texts up to 3-4 characters over length-class representatives x 5 schemes x BOM x every truncation point x 3 target widths x 2 policies x model chunks {8,12}: WellFormed, DetectionCorrect, ContentCorrect (concatenated chunk outputs = a decoding of the whole stream, chunk independent), WholeTextExact, and Terminates under FairSpec (the odd-length UTF-16 livelock of the original tree is a liveness counterexample). Real code: chunk 32 with filler 0..39 and 60..70, chunk 256 around its boundaries, the hook build, short-read stream buffers, and the writer (bytes = BOM + encoding).",
         note="Detection is demanded only for a complete BOM or a complete ASCII non-NUL first character when the bytes are not ambiguous. Known finding: NUL-containing text confuses detection. CSV/JSON/XML stream entry points are driven by C09/C08/C10.",
         design_ref="DESIGN.md#c13"),
+    "C18": dict(
+        category="model_checking",
+        technique="explicit TLA+ specification (Containers.tla: abstract load semantics A and implementation-shaped step functions M with origin-tagged leaves and named deviations) model-checked with TLC (MC_Containers); every state exported as a scenario and replayed on the real MsgPack/JSON/XML/CSV archives (populated vs default-constructed target); observations compared by equality with the prescribed ones",
+        text="TLC exhaustively checks M => A, populated = fresh, no stale leaf survives, nothing loaded is lost and the OnlyExistKeys/UpdateKeys key laws for prior size 0..3/4 x document size 0..2/4 x estimate {zero, exact, larger} x 41 target types (sequence containers, vector<bool>, forward_list, valarray, adaptors, fixed arrays, bitset, tuple, sets, maps in three load modes, multimap, optional, smart pointers, strings, nested combinations) x placement x policy; every state (10k quick / 106k thorough) is replayed on the four real archives and each observation must equal what A prescribes, or what M prescribes under a listed named deviation.",
+        note="Exhaustive only within the stated bounds and element alphabets; XML data-model deviations are named deviations, not part of A; null items are not generated for vector<bool>, bitset, integer sets and atomic; forced estimates on MsgPack/JSON/XML come from a forwarding array scope in the harness.",
+        design_ref="DESIGN.md#c18"),
 })
 
 NOT_YET = {
